@@ -134,8 +134,13 @@ def analyse(inp):
         out["requested"] = float(an.total_energy_requested(sim))
         out["delivered"] = float(an.total_energy_delivered(sim))
         out["proportion"] = float(an.proportion_of_energy_delivered(sim)) if out["requested"] != 0 else None
+        # thresholds: the scripted ones plus the exact remaining demand of up to two sessions (probes `<` vs `<=`)
+        ths = list(inp["thresholds"])
+        for ev in list(sim.ev_history.values())[:2]:
+            ths.append(float(ev.requested_energy - ev.energy_delivered))
+        out["thresholds"] = ths
         out["met"] = [float(an.proportion_of_demands_met(sim, threshold=t)) if len(sim.ev_history) else None
-                      for t in inp["thresholds"]]
+                      for t in ths]
         nema = []
         with np.errstate(all="ignore"):
             for ids in inp["nema_queries"]:
@@ -203,8 +208,10 @@ def make_case(inp):
     amb = False
     # thresholds within 1e-9 of a remaining demand are float-ambiguous: drop them
     used_t, used_m = [], []
-    for t, v in zip(inp["thresholds"], ex["met"]):
-        if any(abs((F(r) - F(d)) - F(t)) < F(1, 10**9) for r, d in ex["evh"]):
+    for t, v in zip(ex["thresholds"], ex["met"]):
+        # a remaining demand whose float value is inexact and within 1e-9 of the threshold is float-ambiguous;
+        # an exactly representable one (e.g. nothing delivered) is a legitimate boundary probe
+        if any(abs((F(r) - F(d)) - F(t)) < F(1, 10**9) and F(r - d) != F(r) - F(d) for r, d in ex["evh"]):
             continue
         used_t.append(t)
         used_m.append(v)
